@@ -148,7 +148,7 @@ class Shifts(Contract):
     secondary_stride = 4
     layer = 5
     uses = LOWER
-    props = {'*': ['C14'], 'format_valid': ['C14', 'C02'], 'in_range': ['C14', 'C02'], 'operand_unchanged': ['C14', 'C20']}
+    props = {'*': ['C14'], 'format_valid': ['C14', 'C02'], 'in_range': ['C14', 'C02'], 'operand_unchanged': ['C14', 'C20'], 'separate_state': ['C20']}
 
     def configs(self, tier):
         words = (1, 2, 3, 6, 8) if tier == 'quick' else (1, 2, 3, 4, 5, 6, 8, 16, 32)
@@ -175,7 +175,9 @@ class Shifts(Contract):
         b = dict(x.__dict__); v0 = list(elems(x.val))
         z = (x << cfg['k']) if cfg['dir'] == 'l' else (x >> cfg['k'])
         o = obs_fxp(z)
-        o.update(unchanged=all(x.__dict__[k] is b[k] for k in b) and same_elems(elems(x.val), v0), not_same=z is not x)
+        o.update(unchanged=all(x.__dict__[k] is b[k] for k in b) and same_elems(elems(x.val), v0), not_same=z is not x,
+                 separate=z is not x and z.config is not x.config and z.status is not x.status and not shares_buffer(z.val, x.val)
+                 and z.callbacks is not x.callbacks)
         return o
 
     def post(self, cfg, inp, obs):
@@ -184,7 +186,7 @@ class Shifts(Contract):
         s, n, f = cfg['x']
         k = cfg['k']
         W, F, S = obs['n_word'], obs['n_frac'], obs['signed']
-        out = {'operand_unchanged': And(obs['unchanged'], obs['not_same']),
+        out = {'operand_unchanged': And(obs['unchanged'], obs['not_same']), 'separate_state': obs['separate'],
                'format_valid': And(S == s, isinstance(W, int), isinstance(F, int), W >= 1, obs['n_int'] == W - F - int(s), obs['dtype'] == fmt_str(s, W, F))}
         if not (isinstance(W, int) and isinstance(F, int)):
             return out
